@@ -221,6 +221,93 @@ def predicts_posmark_hang(files: dict) -> bool:
 
 
 # ----------------------------------------------------------------------------------------------------------------------
+# textual inlining: "the program in which every call is replaced by the macro's body with parameters substituted by the
+# call's arguments, `return` leaving only the macro, and the body's labels private to each expansion"
+# ----------------------------------------------------------------------------------------------------------------------
+class Inliner:
+    def __init__(self, macros: dict[str, dict]):
+        self.macros = macros
+        self.n = 0
+
+    def atom(self, a: Any, subst: dict[str, dict]) -> Any:
+        if isinstance(a, dict) and a.get("k") == "var" and a.get("v") in subst and "t" not in a:
+            return copy.deepcopy(subst[a["v"]])
+        return a
+
+    def node(self, x: Any, subst: dict[str, dict]) -> Any:
+        """substitute parameters in everything that is not a statement list"""
+        if isinstance(x, list):
+            return [self.node(y, subst) for y in x]
+        if isinstance(x, dict):
+            if x.get("k") == "var" and "t" not in x:
+                return self.atom(x, subst)
+            return {k: self.node(v, subst) for k, v in x.items()}
+        return x
+
+    def block(self, body: list, subst: dict[str, dict], ren: dict[str, str] | None, end: str | None, depth: int) -> list:
+        out: list = []
+        for s in body:
+            out += self.stmt(s, subst, ren, end, depth)
+        return out
+
+    def stmt(self, s: dict, subst: dict[str, dict], ren: Any, end: str | None, depth: int) -> list:
+        t = s["t"]
+        rn = (lambda n: ren(n)) if ren else (lambda n: n)
+        if t == "macrocall":
+            if depth > 40:
+                raise ValueError("macro recursion")
+            m = self.macros[s["name"]]
+            args = [self.node(a, subst) for a in s["args"]]
+            if len(args) < len(m["params"]):
+                raise ValueError("too few arguments")
+            self.n += 1
+            tag = f"__{m['name']}_{self.n}"
+            inner = dict(subst)
+            inner.update(dict(zip(m["params"], args)))     # innermost binding first, the caller's bindings stay visible
+            endl = "end" + tag
+            body = self.block(m["body"], inner, (lambda n, tag=tag: n + tag), endl, depth + 1)
+            return body + [{"t": "label", "name": endl}]
+        if t in ("label", "jump", "call"):
+            return [dict(s, name=rn(s["name"]))]
+        if t == "ctrl":
+            if s["k"] == "return" and end is not None:
+                return [{"t": "jump", "name": end}]
+            return [dict(s)]
+        if t == "with":
+            inner_s = self.stmt(s["stmt"], subst, ren, end, depth)
+            assert len(inner_s) == 1
+            return [dict(self.node({k: v for k, v in s.items() if k != "stmt"}, subst), stmt=inner_s[0])]
+        if t == "if":
+            return [{"t": "if", "branches": [{"not": b.get("not", False), "headers": self.node(b["headers"], subst),
+                                              "body": self.block(b["body"], subst, ren, end, depth)} for b in s["branches"]],
+                     "else": None if s.get("else") is None else self.block(s["else"], subst, ren, end, depth)}]
+        if t == "switch":
+            return [{"t": "switch", "header": self.node(s["header"], subst),
+                     "cases": [{"default": c.get("default", False), "header": self.node(c.get("header"), subst),
+                                "body": self.block(c["body"], subst, ren, end, depth)} for c in s["cases"]]}]
+        if t in ("forever", "while", "for"):
+            d = {k: self.node(v, subst) for k, v in s.items() if k not in ("body", "init", "inc")}
+            if t == "for":
+                d["init"] = self.stmt(s["init"], subst, ren, end, depth)[0]
+                d["inc"] = self.stmt(s["inc"], subst, ren, end, depth)[0]
+            d["body"] = self.block(s["body"], subst, ren, end, depth)
+            return [d]
+        return [self.node(s, subst)]
+
+
+def inline_program(ast: dict, visible: dict[str, dict]) -> dict:
+    """macro-free program: every call of `ast`'s routines replaced by the body (recursively). `visible`: name -> macro"""
+    inl = Inliner(visible)
+    routines = []
+    for r in ast["routines"]:
+        if r.get("body") is None:
+            routines.append(copy.deepcopy(r))
+        else:
+            routines.append(dict(copy.deepcopy({k: v for k, v in r.items() if k != "body"}), body=inl.block(r["body"], {}, None, None, 0)))
+    return {"imports": [], "macros": [], "routines": routines}
+
+
+# ----------------------------------------------------------------------------------------------------------------------
 # family 1: every DAG shape x every definition order (plain bodies)
 # ----------------------------------------------------------------------------------------------------------------------
 def plain_dag_program(calls: list[list[int]], def_order: list[int], call_orders: list[list[int]] | None = None,
@@ -289,7 +376,7 @@ def _body_from_proggen(rnd: random.Random, cfg: Cfg, stats: dict, macro: bool) -
     for k, v in g.stats.items():
         stats[k] = stats.get(k, 0) + v
     if macro and body and body[-1]["t"] == "ctrl" and body[-1]["k"] in ("end", "hold") and rnd.random() < 0.8:
-        if rnd.random() < 0.5:
+        if rnd.random() < 0.5 or len(body) == 1:      # a function body needs at least one statement
             body[-1] = {"t": "ctrl", "k": "return"}
         else:
             body.pop()
@@ -406,7 +493,9 @@ class RichGen:
         for i in range(n):
             np = r.choice([0, 1, 1, 2, 3])
             params = r.sample(PARAM_POOL, np)
-            classes = [r.choice(["il", "any"]) for _ in params]
+            # parameters named like game variables that ProgGen bodies use ("$X", "$v2") may end up in integer-like
+            # positions of this or of a called macro's body (capture by name): they only receive integer-like arguments
+            classes = ["il" if p_ in GAME_VARS else r.choice(["il", "any"]) for p_ in params]
             macros.append({"name": f"mac{i}", "params": params, "_classes": classes, "body": []})
         for i in reversed(range(n)):
             m = macros[i]
